@@ -234,8 +234,15 @@ func verifConstRound(c any) (any, bool, bool) {
 
 // compiler.New inserts the global names in sorted order (mechanism "global names sorted before symbol
 // insertion"): the insertion loop runs over a sorted slice whatever order the caller supplied.
+// C17: a compiler that continues existing code (WithCode) numbers its functions after the ones that code contains, so
+// function IDs stay unique in the tree (saved code is re-linked to its function constants by ID; KF-63 fixed).
+// Assumed: no Option sets the function counter.
 //@ func New
-//@ props C05
+//@ props C05 C17
+//@ dynensures Option: arg0.funcIndex == 0
+//@ ensures[C17.new.funcindex] result1 == nil ==> result0 != nil && result0.main != nil && (result0.funcIndex == flen(result0.main) - 1 || fresh(result0.main) && result0.funcIndex == 0)
+//@ invariant[C17.new.funcindex] 1: c != nil && c.funcIndex == 0
+//@ invariant[C17.new.funcindex] 2: c != nil && c.main != nil && (c.funcIndex == flen(c.main) - 1 || fresh(c.main) && c.funcIndex == 0)
 //@ invariant[C05.new.sorted] 2: c != nil && forall(i, 0, len(c.globalNames), forall(j, i, len(c.globalNames), c.globalNames[i] <= c.globalNames[j]))
 
 // C09: compiled code is shared read-only between VMs. All fields of Code are unexported; the functions that write
